@@ -285,8 +285,7 @@ Proof.
   apply Nat.leb_le in B1, B2.
   assert (m_sub_match c = s_match c) as Hmm.
   { unfold m_sub_match, s_match.
-    destruct (c_fn c) eqn:F; try discriminate Hf; cbn in D |- *; try reflexivity;
-      destruct (c_test c); try discriminate; reflexivity. }
+    destruct (c_fn c) eqn:F; try discriminate Hf; reflexivity. }
   assert (m_substitute c =
           RSeq (firstn (s_start c) (elems (c_seq c)) ++
                 from_end_wrap (c_from_end c) (sub_n (s_match c) (c_new c) (s_limit (c_count c)))
